@@ -399,7 +399,7 @@ func c08Gen(g *Gen, tier string, out *bufio.Writer) {
 	// contiguous chunks each get their share
 	var lines []string
 	w := &c08Lines{lines: &lines}
-	nenv, perEnv, nrows, nagg, nqry := 36, 70, 4, 500, 64
+	nenv, perEnv, nrows, nagg, nqry := 36, 70, 4, 500, 90
 	if tier == "thorough" {
 		nenv, perEnv, nrows, nagg, nqry = 260, 110, 6, 6000, 1000
 	}
